@@ -56,6 +56,8 @@ type PkgDecl struct {
 	Reexports   []Reexport // GetX<Type>() returning a type of an imported package
 	Imports     []int
 	AliasImport bool // importers write an explicit alias
+	Pad         int  // bytes of filler comment at the top of decl.go (moves every position)
+	UsesFirst   bool // use.go is listed (and parsed) before decl.go
 }
 
 func (p *PkgDecl) FuncName() string   { return "F" + p.Name }
@@ -121,6 +123,10 @@ func Generate(t Drawer, opt GenOpt) (*World, *Meta) {
 		if strings.HasPrefix(shape, "pkg") || strings.HasSuffix(shape, ".d") {
 			pd.AliasImport = d.chance(1, 2)
 		}
+		if d.chance(1, 4) {
+			pd.Pad = []int{3000, 30000}[d.Draw(2)]
+		}
+		pd.UsesFirst = d.chance(1, 4)
 		// imports: a DAG over earlier packages
 		if !flat && i > 0 {
 			if opt.NeedDepth2 && i <= 2 {
@@ -335,6 +341,9 @@ func renderDecl(d drw, w *World, m *Meta, pd *PkgDecl) File {
 	}
 	s.ln("package %s", pd.Name)
 	s.ln("")
+	for n := 0; n < pd.Pad; n += 64 {
+		s.ln("// filler filler filler filler filler filler filler filler fill")
+	}
 	// which deps does the declaration file need? re-exported types and @implements targets
 	need := []int{}
 	for _, r := range pd.Reexports {
@@ -579,8 +588,13 @@ func renderPkg(d drw, w *World, m *Meta, pd *PkgDecl) {
 	for _, j := range pd.Imports {
 		p.Imports = append(p.Imports, m.Decls[j].Path)
 	}
-	p.Files = append(p.Files, renderDecl(d, w, m, pd))
-	p.Files = append(p.Files, renderUses(d, w, m, pd, "use.go", d.rng(1, 2), true))
+	decl := renderDecl(d, w, m, pd)
+	use := renderUses(d, w, m, pd, "use.go", d.rng(1, 2), true)
+	if pd.UsesFirst {
+		p.Files = append(p.Files, use, decl)
+	} else {
+		p.Files = append(p.Files, decl, use)
+	}
 	if d.chance(1, 4) {
 		p.Files = append(p.Files, renderUses(d, w, m, pd, "more.go", 1, d.chance(1, 2)))
 	}
